@@ -807,9 +807,11 @@ func serialAtTheLimit(r *monitor.Run) {
 		return
 	}
 	defer b.Stop(step)
-	n := r.Pick(1500, 12000)
+	// more publishers than cores: the broker's read and write loops of a connection get descheduled between two steps
+	// now and then, which is what a wrongly ordered pair of steps needs to show
+	n := r.Pick(1000, 6000)
 	var wg sync.WaitGroup
-	for w := 0; w < 4; w++ {
+	for w := 0; w < 24; w++ {
 		wg.Add(1)
 		go func(w int) {
 			defer wg.Done()
